@@ -22,7 +22,7 @@ IItemB == {El("b", tp, o[1], o[2]) : tp \in {"string", "Kid", "int"}, o \in IOcc
 IItemC == {[k |-> "none"]} \cup {Grp(k, o[1], o[2], <<El("c", "int", 1, 1), El("d", "string", m, 1)>>) :
                                    k \in {"seq", "choice"}, o \in {<<1, 1>>, <<0, 1>>, <<1, U>>}, m \in {0, 1}}
 More == IF MultiSample THEN (0 - 1)..MaxDocIdx ELSE {0 - 1}
-Slots == << {"seq", "choice"}, {<<1, 1>>, <<1, U>>}, IItemA, IItemB, IItemC, {NONE, "urn:t"}, {1, 2, 3, 4},
+Slots == << {"seq", "choice"}, {<<1, 1>>, <<1, U>>}, IItemA, IItemB, IItemC, {NONE, "urn:t", "urn:t|alt", "urn:t|kids"}, {1, 2, 3, 4},
             0..MaxDocIdx, More, More, More >>
 NSlots == Len(Slots)
 Init == parts = <<>>
